@@ -759,7 +759,7 @@ func runScenario(run *vk.Run, srv *vsrv.Server, batch uint64, idx int, actions i
 		run.Sample(map[string]any{"batch": batch, "scenario": idx, "clients": n, "trail_head": sc.trail[:min(len(sc.trail), 30)]})
 		sc.mu.Unlock()
 	}
-	// departures of this scenario's clients settle while the next one starts (distinct ids)
+	// child() waits for the departures of this scenario's clients to settle before the next one
 }
 
 func child() {
@@ -774,11 +774,41 @@ func child() {
 	writeGroups(srv)
 	for i := 0; i < a.Scen; i++ {
 		runScenario(run, srv, a.Index, i, a.Acts)
+		settle(run, fmt.Sprintf("b%ds%dc", a.Index, i))
 	}
 	if a.Index%2 == 0 {
 		crowd(run, srv, a.Index)
 	}
 	os.Exit(0)
+}
+
+// settle waits until the server has removed every client of the scenario that just ended (their
+// sockets are closed; the server notices, ends their loops and removes them, which takes a
+// moment on a loaded machine).  A scenario's model knows its own clients only: a leftover
+// member of an earlier scenario would be announced to the next one's clients as somebody
+// "who never joined".  The server runs in this process, so its member lists can be read.
+func settle(run *vk.Run, prefix string) {
+	deadline := time.Now().Add(30 * time.Second)
+	for {
+		left := 0
+		for _, name := range groupNames {
+			if g := group.Get(name); g != nil {
+				for _, c := range g.GetClients(nil) {
+					if strings.HasPrefix(c.Id(), prefix) {
+						left++
+					}
+				}
+			}
+		}
+		if left == 0 {
+			return
+		}
+		if time.Now().After(deadline) {
+			run.Undecided(fmt.Sprintf("%d clients of scenario %s were still members 30 s after their sockets were closed", left, prefix))
+			return
+		}
+		time.Sleep(5 * time.Millisecond)
+	}
 }
 
 // crowd: a group of 130 members, and then one more client joins: it is told about every one
